@@ -725,3 +725,194 @@ Proof.
     destruct (server_negotiate_version _ _ _); [|discriminate]. destruct (has _ c_v_tls_1_3_any); [|eauto].
     destruct (choose_suite _ _ _ _); discriminate.
 Qed.
+
+(* ================================================================== enable/disable histories (matrixSslSetCipherSuiteEnabledStatus) *)
+Lemma mem_cons : forall x a l, mem x (a :: l) = (x =? a) || mem x l.
+Proof. reflexivity. Qed.
+
+Lemma disable_slot_mem : forall s b s', disable_slot s b = Some s' -> mem b s' = true.
+Proof.
+  induction s as [|a s IH]; intros b s' H; cbn [disable_slot] in H; [discriminate|].
+  destruct ((a =? 0) || (a =? b)).
+  - inversion H; subst. rewrite mem_cons, N.eqb_refl. reflexivity.
+  - destruct (disable_slot s b) eqn:E; [|discriminate]. inversion H; subst. rewrite mem_cons, (IH _ _ E). apply orb_true_r.
+Qed.
+Lemma disable_slot_pres : forall s b s' x, disable_slot s b = Some s' -> x <> b -> x <> 0 -> mem x s' = mem x s.
+Proof.
+  induction s as [|a s IH]; intros b s' x H Hb H0; cbn [disable_slot] in H; [discriminate|].
+  destruct ((a =? 0) || (a =? b)) eqn:C.
+  - inversion H; subst. rewrite !mem_cons. f_equal. apply orb_true_iff in C.
+    destruct C as [C|C]; apply N.eqb_eq in C; subst; destruct (N.eqb_spec x b); destruct (N.eqb_spec x 0); try contradiction; try reflexivity.
+  - destruct (disable_slot s b) eqn:E; [|discriminate]. inversion H; subst. rewrite !mem_cons, (IH _ _ _ E Hb H0). reflexivity.
+Qed.
+Lemma enable_slot_pres : forall s b x, x <> b -> x <> 0 -> mem x (enable_slot s b) = mem x s.
+Proof.
+  induction s as [|a s IH]; intros b x Hb H0; [reflexivity|]. cbn [enable_slot]. destruct (N.eqb_spec a b).
+  - subst. rewrite !mem_cons. destruct (N.eqb_spec x 0); [contradiction|]. destruct (N.eqb_spec x b); [contradiction | reflexivity].
+  - rewrite !mem_cons, IH by assumption. reflexivity.
+Qed.
+Lemma mem_filter_neq : forall x b l, mem x (filter (fun y => negb (y =? b)) l) = mem x l && negb (x =? b).
+Proof.
+  induction l as [|a l IH]; [reflexivity|]. cbn [filter]. destruct (N.eqb_spec a b).
+  - subst. cbn [negb]. rewrite IH, mem_cons. destruct (N.eqb_spec x b); cbn; [rewrite andb_false_r; reflexivity | reflexivity].
+  - cbn [negb]. rewrite !mem_cons, IH. destruct (N.eqb_spec x a); [subst; destruct (N.eqb_spec a b); [contradiction | reflexivity] | reflexivity].
+Qed.
+
+(* one step: the flags "currently disabled" (session / global) stay below "is on the list" *)
+Lemma set_status_sound : forall st op st' c id accs accg, id <> 0 -> set_status st op = (st', c) ->
+  (accs = true -> mem id (d_slots st) = true) -> (accg = true <-> mem id (d_global st) = true) ->
+  let accs' := match c with RcOk => let '(g, i) := op_target op in if Bool.eqb g false && (i =? id) then op_disables op else accs | _ => accs end in
+  let accg' := match c with RcOk => let '(g, i) := op_target op in if Bool.eqb g true && (i =? id) then op_disables op else accg | _ => accg end in
+  (accs' = true -> mem id (d_slots st') = true) /\ (accg' = true <-> mem id (d_global st') = true).
+Proof.
+  intros st op st' c id accs accg Hid H Hs Hg. destruct op as [b|b|b|b]; cbn [set_status] in H; destruct (negb (in_table b)); try (inversion H; subst; cbn; tauto).
+  - destruct (disable_slot (d_slots st) b) eqn:E; inversion H; subst; cbn [op_target op_disables Bool.eqb andb d_slots d_global]; [|tauto].
+    split; [|exact Hg]. destruct (N.eqb_spec b id).
+    + subst. intros _. eapply disable_slot_mem; eauto.
+    + intros A. rewrite (disable_slot_pres _ _ _ id E); auto.
+  - inversion H; subst; cbn [op_target op_disables Bool.eqb andb d_slots d_global]. split; [|exact Hg]. destruct (N.eqb_spec b id).
+    + discriminate.
+    + intros A. rewrite enable_slot_pres; auto.
+  - inversion H; subst; cbn [op_target op_disables Bool.eqb andb d_slots d_global]. split; [exact Hs|]. destruct (N.eqb_spec b id).
+    + subst. destruct (mem id (d_global st)) eqn:M; [tauto|]. rewrite mem_cons, N.eqb_refl. tauto.
+    + destruct (mem b (d_global st)); [exact Hg|]. rewrite mem_cons. destruct (N.eqb_spec id b); [subst; contradiction | exact Hg].
+  - inversion H; subst; cbn [op_target op_disables Bool.eqb andb d_slots d_global]. split; [exact Hs|]. rewrite mem_filter_neq. destruct (N.eqb_spec b id).
+    + subst. rewrite N.eqb_refl. cbn. rewrite andb_false_r. split; discriminate.
+    + destruct (N.eqb_spec id b); [subst; contradiction|]. cbn. rewrite andb_true_r. exact Hg.
+Qed.
+
+Lemma history_inv : forall ops st id accs accg, id <> 0 ->
+  (accs = true -> mem id (d_slots st) = true) -> (accg = true <-> mem id (d_global st) = true) ->
+  (cur_disabled false id (combine ops (snd (run_ops st ops))) accs = true -> mem id (d_slots (fst (run_ops st ops))) = true) /\
+  (cur_disabled true id (combine ops (snd (run_ops st ops))) accg = true <-> mem id (d_global (fst (run_ops st ops))) = true).
+Proof.
+  induction ops as [|op ops IH]; intros st id accs accg Hid Hs Hg; [cbn; tauto|].
+  cbn [run_ops]. destruct (set_status st op) as [st1 c] eqn:E. destruct (run_ops st1 ops) as [st2 cs] eqn:R. cbn [fst snd combine cur_disabled].
+  pose proof (set_status_sound _ _ _ _ id accs accg Hid E Hs Hg) as [A B].
+  assert (R1 : st2 = fst (run_ops st1 ops)) by (rewrite R; reflexivity). assert (R2 : cs = snd (run_ops st1 ops)) by (rewrite R; reflexivity).
+  destruct c.
+  - destruct (op_target op) as [g i] eqn:T. subst st2 cs.
+    replace (Bool.eqb g false && (i =? id)) with (Bool.eqb g false && (i =? id)) in * by reflexivity.
+    assert (Hgl : forall glob acc, (if Bool.eqb g glob && (i =? id) then op_disables op else acc) =
+                                   (if Bool.eqb g glob && (i =? id) then op_disables op else acc)) by reflexivity.
+    destruct (IH st1 id (if Bool.eqb g false && (i =? id) then op_disables op else accs)
+                        (if Bool.eqb g true && (i =? id) then op_disables op else accg) Hid A B) as [P Q]. split; assumption.
+  - subst st2 cs. exact (IH st1 id accs accg Hid A B).
+  - subst st2 cs. exact (IH st1 id accs accg Hid A B).
+Qed.
+
+Lemma gcs_disabled_none : forall g k id, id <> 0 ->
+  mem id (g_disabled_global g) = true \/ mem id (g_disabled g) = true -> get_cipher_spec g k id = None.
+Proof.
+  intros g k id Hid H. destruct (get_cipher_spec g k id) eqn:G; [|reflexivity]. exfalso.
+  apply gcs_some in G. destruct G as [_ [D1 [D2 _]]]. destruct H as [H|H]; [congruence|].
+  destruct (N.eqb_spec id 0); [contradiction|]. cbn [negb andb] in D2. congruence.
+Qed.
+
+(* MAIN: after ANY history of enable/disable calls, a suite whose last successful operation was a disable (per session or
+   globally) is refused by sslGetCipherSpec, hence never chosen; globally the converse holds as well *)
+Theorem disabled_history_sound : forall ops id server supp active k,
+  id <> 0 ->
+  (cur_disabled false id (combine ops (snd (run_ops dinit ops))) false = true \/
+   cur_disabled true id (combine ops (snd (run_ops dinit ops))) false = true ->
+     get_cipher_spec (scfg_after server supp active (fst (run_ops dinit ops))) k id = None /\
+     forall kf suites s, choose_suite (scfg_after server supp active (fst (run_ops dinit ops))) k kf suites = Some s -> s_id s <> id) /\
+  (mem id (d_global (fst (run_ops dinit ops))) = true <-> cur_disabled true id (combine ops (snd (run_ops dinit ops))) false = true).
+Proof.
+  intros ops id server supp active k Hid.
+  assert (I0 : false = true -> mem id (d_slots dinit) = true) by discriminate.
+  assert (I1 : false = true <-> mem id (d_global dinit) = true) by (split; discriminate).
+  destruct (history_inv ops dinit id false false Hid I0 I1) as [P Q].
+  assert (G : cur_disabled false id (combine ops (snd (run_ops dinit ops))) false = true \/
+              cur_disabled true id (combine ops (snd (run_ops dinit ops))) false = true ->
+              get_cipher_spec (scfg_after server supp active (fst (run_ops dinit ops))) k id = None).
+  { intros H. apply gcs_disabled_none; [exact Hid|]. cbn [scfg_after g_disabled_global g_disabled].
+    destruct H as [H|H]; [right; exact (P H) | left; apply Q; exact H]. }
+  split; [|symmetry; exact Q]. intros H. split; [exact (G H)|].
+  intros kf suites s C E. destruct (choose_suite_sound _ _ _ _ _ C) as [_ [B _]]. rewrite E, (G H) in B. discriminate.
+Qed.
+
+(* ---- the converse for the per-session list, for histories that never disable a suite already on the list
+   (otherwise a second copy can be written into a hole in front of the first one and survives the next enable) *)
+Definition cnt (x : N) (l : list N) : nat := count_occ N.eq_dec l x.
+Lemma cnt_cons : forall x a l, cnt x (a :: l) = ((if N.eqb a x then 1 else 0) + cnt x l)%nat.
+Proof. intros. unfold cnt. cbn [count_occ]. destruct (N.eq_dec a x) as [->|n]; [rewrite N.eqb_refl; reflexivity | destruct (N.eqb_spec a x); [contradiction | reflexivity]]. Qed.
+Lemma mem_cnt : forall x l, mem x l = true <-> (cnt x l > 0)%nat.
+Proof. intros. rewrite mem_In. unfold cnt. apply count_occ_In. Qed.
+Lemma mem_cnt0 : forall x l, mem x l = false <-> cnt x l = O.
+Proof.
+  intros. pose proof (mem_cnt x l) as H. destruct (mem x l) eqn:M.
+  - split; [discriminate|]. intros Z. destruct H as [H _]. specialize (H eq_refl). lia.
+  - split; [|reflexivity]. intros _. destruct (cnt x l) eqn:C; [reflexivity|]. destruct H as [_ H].
+    assert (K : (S n > 0)%nat) by lia. specialize (H K). discriminate.
+Qed.
+
+Lemma disable_slot_cnt : forall s b s' x, disable_slot s b = Some s' -> b <> 0 -> mem b s = false -> x <> 0 ->
+  cnt x s' = (cnt x s + (if N.eqb x b then 1 else 0))%nat.
+Proof.
+  induction s as [|a s IH]; intros b s' x H Hb M Hx; cbn [disable_slot] in H; [discriminate|].
+  rewrite mem_cons in M. apply orb_false_iff in M. destruct M as [M1 M2]. apply N.eqb_neq in M1.
+  destruct (N.eqb_spec a 0) as [A0|A0].
+  - cbn [orb] in H. inversion H; subst. rewrite !cnt_cons. destruct (N.eqb_spec 0 x); [congruence|].
+    destruct (N.eqb_spec b x); destruct (N.eqb_spec x b); try congruence; lia.
+  - destruct (N.eqb_spec a b); [congruence|]. cbn [orb] in H. destruct (disable_slot s b) eqn:E; [|discriminate]. inversion H; subst.
+    rewrite !cnt_cons, (IH _ _ _ E Hb M2 Hx). lia.
+Qed.
+Lemma enable_slot_cnt : forall s b x, x <> 0 -> cnt x (enable_slot s b) = (cnt x s - (if N.eqb x b && mem b s then 1 else 0))%nat.
+Proof.
+  induction s as [|a s IH]; intros b x Hx; [cbn; destruct ((x =? b) && false); reflexivity|]. cbn [enable_slot]. rewrite mem_cons.
+  destruct (N.eqb_spec a b) as [E|E].
+  - subst. rewrite N.eqb_refl. cbn [orb]. rewrite !cnt_cons. destruct (N.eqb_spec 0 x); [congruence|].
+    destruct (N.eqb_spec b x); destruct (N.eqb_spec x b); try congruence; cbn; lia.
+  - destruct (N.eqb_spec b a); [congruence|]. cbn [orb]. rewrite !cnt_cons, IH by assumption.
+    destruct (N.eqb_spec a x); [|lia]. subst. destruct (N.eqb_spec x b); [congruence|]. cbn. lia.
+Qed.
+
+Definition once (s : list N) : Prop := forall x, x <> 0 -> (cnt x s <= 1)%nat.
+
+Lemma history_iff_inv : forall ops st id acc, id <> 0 -> once (d_slots st) -> no_redundant st ops = true ->
+  (acc = true <-> mem id (d_slots st) = true) ->
+  (cur_disabled false id (combine ops (snd (run_ops st ops))) acc = true <-> mem id (d_slots (fst (run_ops st ops))) = true).
+Proof.
+  induction ops as [|op ops IH]; intros st id acc Hid Ho Hn Ha; [cbn; exact Ha|].
+  cbn [no_redundant] in Hn. apply andb_true_iff in Hn. destruct Hn as [Hn1 Hn2].
+  cbn [run_ops]. destruct (set_status st op) as [st1 c] eqn:E. destruct (run_ops st1 ops) as [st2 cs] eqn:R. cbn [fst snd combine cur_disabled].
+  cbn [fst] in Hn2.
+  assert (R1 : st2 = fst (run_ops st1 ops)) by (rewrite R; reflexivity). assert (R2 : cs = snd (run_ops st1 ops)) by (rewrite R; reflexivity). subst st2 cs.
+  destruct op as [b|b|b|b]; cbn [set_status] in E; destruct (in_table b) eqn:T; cbn [negb] in E;
+    try (inversion E; subst; cbn [op_target]; apply IH; auto; fail).
+  - (* DDis b *)
+    apply negb_true_iff in Hn1.
+    assert (Hb : b <> 0). { intro Z. subst. pose proof table_no_zero_id as P. rewrite forallb_forall in P. unfold in_table in T. apply existsb_exists in T.
+      destruct T as [s0 [I0 Z0]]. specialize (P _ I0). rewrite Z0 in P. discriminate. }
+    destruct (disable_slot (d_slots st) b) as [s'|] eqn:D; inversion E; subst; [|apply IH; auto].
+    cbn [op_target op_disables Bool.eqb andb]. apply IH; auto; cbn [d_slots].
+    + intros x Hx. rewrite (disable_slot_cnt _ _ _ x D Hb Hn1 Hx). destruct (N.eqb_spec x b); [subst; apply mem_cnt0 in Hn1; lia | specialize (Ho x Hx); lia].
+    + destruct (N.eqb_spec b id).
+      * subst. split; [intros _; eapply disable_slot_mem; eauto | reflexivity].
+      * rewrite (disable_slot_pres _ _ _ id D); auto.
+  - (* DEn b *)
+    inversion E; subst. cbn [op_target op_disables Bool.eqb andb]. apply IH; auto; cbn [d_slots].
+    + intros x Hx. rewrite enable_slot_cnt by assumption. specialize (Ho x Hx). lia.
+    + destruct (N.eqb_spec b id).
+      * subst. split; [discriminate|]. intros M. exfalso. apply mem_cnt in M. rewrite enable_slot_cnt in M by assumption.
+        rewrite N.eqb_refl in M. cbn [andb] in M. specialize (Ho id Hid). destruct (mem id (d_slots st)) eqn:MM; [lia|]. apply mem_cnt0 in MM. lia.
+      * rewrite enable_slot_pres; auto.
+Qed.
+
+Theorem disabled_history_iff_partial : forall ops id, id <> 0 -> no_redundant dinit ops = true ->
+  (mem id (d_slots (fst (run_ops dinit ops))) = true <-> cur_disabled false id (combine ops (snd (run_ops dinit ops))) false = true).
+Proof.
+  intros ops id Hid Hn. symmetry. apply history_iff_inv; auto.
+  - intros x Hx. unfold dinit, empty_slots. cbn [d_slots]. unfold cnt. rewrite count_occ_repeat_neq by congruence. lia.
+  - split; [discriminate|]. unfold dinit, empty_slots. cbn [d_slots]. intros M. apply mem_In in M. apply repeat_spec in M. congruence.
+Qed.
+
+(* without that hypothesis the converse fails: disable A, disable B, re-enable A (hole in front of B), disable B again
+   (second copy in the hole), enable B (only the first copy goes) - B stays refused although its last operation was an
+   enable.  Fails closed; reproduced on the library by the correspondence run (corpus/C07/histories.case). *)
+Example reenable_duplicate_witness :
+  let ops := [DDis 49199; DDis 49200; DEn 49199; DDis 49200; DEn 49200] in
+  cur_disabled false 49200 (combine ops (snd (run_ops dinit ops))) false = false /\
+  mem 49200 (d_slots (fst (run_ops dinit ops))) = true.
+Proof. vm_compute. split; reflexivity. Qed.
